@@ -108,7 +108,7 @@ def run(ck: Check):
         if not torch.equal(a, b):
             ck.disagree("sampling is not reproducible under a fixed seed", {"hard": hard}, signature={"what": "seed"})
     # guard
-    for tau in (0.0, -1.0, -1e-9, float("nan")):
+    for tau in (0.0, -1.0, -1e-9, float("nan"), float("inf")):
         ck.case({"kind": "guard", "tau": repr(tau)}, kind="guard")
         try:
             r = F.gumbel_sigmoid(torch.zeros(3), tau=tau)
